@@ -3,7 +3,7 @@
 From Util Require Import Common.Base Common.ListLemmas CSync.RWModel.
 
 (* harness actors: one per Lock/TryLock call, and one per call of a release function *)
-Inductive hact := HCall (m : nat) | HRel (t : nat) (first : bool).
+Inductive hact := HCall (m : nat) | HRel (t : nat) (first : bool) | HPanic.
 Record hst := { ms : st; hmap : list hact }.
 Definition hinit : hst := {| ms := init; hmap := [] |}.
 
@@ -29,6 +29,7 @@ Definition code (s : st) (h : hact) : N :=
       | None => 0%N
       end
     else 6%N
+  | HPanic => 9%N
   end.
 
 Definition obs (h : hst) : list N := map (code (ms h)) (hmap h).
@@ -84,6 +85,7 @@ Definition hstep (h : hst) (e : list N) : option (hst * list N) :=
       end
     | _ => None
     end
+  | [8] => ret {| ms := s; hmap := hmap h ++ [HPanic] |}      (* Locker.Unlock of an unlocked locker: panics *)
   | _ => None
   end%N.
 
@@ -119,6 +121,7 @@ Definition mon (ml : list mact) (e o : list N) : list mact * list (nat * nat) :=
                           mblk := if N.eqb (mk m) 0 then regs_before else [] |})
     | [4; i] => upd ml (N.to_nat i) (fun m => {| mk := mk m; mrel := mrel m; mcanc := true; mreg := mreg m; mfirst := mfirst m; mgranted := mgranted m; mblk := mblk m |})
     | [5; i] => upd ml (N.to_nat i) (fun m => {| mk := mk m; mrel := true; mcanc := mcanc m; mreg := mreg m; mfirst := mfirst m; mgranted := mgranted m; mblk := mblk m |}) ++ [mnew 4]
+    | [8] => ml ++ [mnew 4]
     | _ => ml
     end%N in
   let pairs := combine ml1 o in
@@ -152,5 +155,71 @@ Definition mon (ml : list mact) (e o : list N) : list mact * list (nat * nat) :=
     (if pref_bad then [(2, 4)] else [])
   in (ml4, fails).
 
+(* ---------------- the sync.Locker wrappers (Locker(), RLocker()) ----------------
+   Locker.Lock   = Lock(context.Background(), write) and, once granted, push the release function on the locker's stack;
+   Locker.Unlock = pop the most recent release function and call it; panic if there is none.
+   At the level of histories:  [6 w] Locker.Lock on the write (w = 1) / read (w = 0) locker, a Lock call whose context is
+   never cancelled and whose release function only the locker holds;  [7 w] Locker.Unlock.  Both are translated to the
+   events above; the stacks are kept from what is OBSERVED (an entry is pushed when its call is seen granted), by the
+   same function on the model side and on the monitor side. *)
+Record lockers := { lown : list (nat * bool); lall : list nat; lstk_r : list nat; lstk_w : list nat }.
+Definition lockers0 : lockers := {| lown := []; lall := []; lstk_r := []; lstk_w := [] |}.
+
+Definition push_granted (l : lockers) (o : list N) : lockers :=
+  fold_left (fun (l : lockers) (iw : nat * bool) =>
+               let '(i, w) := iw in
+               if N.eqb (nth i o 0%N) 3
+               then {| lown := filter (fun jw : nat * bool => negb (Nat.eqb (fst jw) i)) (lown l); lall := lall l;
+                       lstk_r := if w then lstk_r l else i :: lstk_r l; lstk_w := if w then i :: lstk_w l else lstk_w l |}
+               else l) (lown l) l.
+
+(* translate one history event; returns the inner event and the lockers after it (before the push rule) *)
+Definition ltranslate (l : lockers) (n : nat) (e : list N) : option (list N * lockers) :=
+  match e with
+  | [6; w] => Some ([1; w], {| lown := lown l ++ [(n, N.eqb w 1)]; lall := lall l ++ [n]; lstk_r := lstk_r l; lstk_w := lstk_w l |})
+  | [7; w] =>
+    if N.eqb w 1 then
+      match lstk_w l with
+      | i :: r => Some ([5; N.of_nat i], {| lown := lown l; lall := lall l; lstk_r := lstk_r l; lstk_w := r |})
+      | [] => Some ([8], l)
+      end
+    else
+      match lstk_r l with
+      | i :: r => Some ([5; N.of_nat i], {| lown := lown l; lall := lall l; lstk_r := r; lstk_w := lstk_w l |})
+      | [] => Some ([8], l)
+      end
+  | [4; i] | [5; i] => if existsb (Nat.eqb (N.to_nat i)) (lall l) then None else Some (e, l)
+  | [8] => None
+  | _ => Some (e, l)
+  end%N.
+
+Definition lstep {H} (inner : H -> list N -> option (H * list N)) (nent : H -> nat)
+           (hl : H * lockers) (e : list N) : option ((H * lockers) * list N) :=
+  let '(h, l) := hl in
+  match ltranslate l (nent h) e with
+  | Some (e', l') =>
+    match inner h e' with
+    | Some (h', o) => Some ((h', push_granted l' o), o)
+    | None => None
+    end
+  | None => None
+  end.
+
+Definition lmon {M} (inner : M -> list N -> list N -> M * list (nat * nat)) (nent : M -> nat)
+           (ml : M * lockers) (e o : list N) : (M * lockers) * list (nat * nat) :=
+  let '(m, l) := ml in
+  match ltranslate l (nent m) e with
+  | Some (e', l') =>
+    let '(m', f) := inner m e' o in
+    (* clause (1,3): Locker.Unlock panics exactly when the locker holds nothing *)
+    let f' := match e, e' with
+              | [7%N; _], [8%N] => if N.eqb (last o 0%N) 9%N then [] else [(1%nat, 3%nat)]
+              | [7%N; _], _ => if N.eqb (last o 0%N) 9%N then [(1%nat, 3%nat)] else []
+              | _, _ => []
+              end in
+    ((m', push_granted l' o), f ++ f')
+  | None => (ml, [])
+  end.
+
 Definition run_check_rwmutex (cfg : list N) (evs obss : list (list N)) : list issue :=
-  run_check hstep mon hinit [] evs obss.
+  run_check (lstep hstep (fun h => length (hmap h))) (lmon mon (@length mact)) (hinit, lockers0) ([], lockers0) evs obss.
